@@ -21,6 +21,8 @@ import (
 	"strconv"
 	"strings"
 	"sync"
+	"unicode"
+	"unicode/utf8"
 
 	ucfg "github.com/elastic/go-ucfg"
 
@@ -52,8 +54,8 @@ func (check) Assumptions() []string {
 	return []string{
 		"oracle = own reflection walk written from the doc comment of Unpack: required (non-nil, number != 0, non-empty string/slice/map), nonzero (number != 0, non-empty; nil allowed), positive (>= 0), min/max inclusive, durations compared as durations (bound 5s or a number of seconds); validators look through pointers and interfaces; ignored and unexported fields are skipped; Validate() is called on every reachable value of the library types (value or pointer receiver)",
 		"only clear cases are generated: bad values miss a bound by >= 0.5, no nil-vs-empty collection under required/nonzero (collections under these tags are non-empty when valid, and the only collection fault is `required` with the field absent), no validator on a kind it does not apply to, no negative bound on unsigned, `required` is only ever satisfied from the configuration, a zero left in an absent non-pointer `nonzero` field is never generated (validator.go's own comment contradicts the Unpack documentation there), a pre-filled value that the configuration overwrites is itself valid",
-		"the error must contain the quoted dotted path of the faulty field ('a.b.0.c'). Accepted as well: the quoted path of any setting enclosing the field (a non-empty proper prefix of its path) when the fault sits inside an element of a slice/array/map, or when the fault does not come from the configuration (pre-filled default, InitDefaults, absent): there is no configuration node to name then. A path that is neither the field nor one of its enclosing settings, or no path at all, is a violation",
-		"for a cross-field Validate() of a struct the faulty 'field' is the struct value itself; for Validate() of a slice type it is the slice; a top-level slice / map target has no name of its own, \"accessing config\" names it",
+		"the error must contain the dotted path of the faulty field (a.b.0.c) as a delimited token: the characters next to the occurrence are no path characters (letters, digits, _ . -); wording and quoting are not looked at. Accepted as well: the path of any setting enclosing the field (a non-empty proper prefix of its path) when the fault sits inside an element of a slice/array/map, or when the fault does not come from the configuration (pre-filled default, InitDefaults, absent): there is no configuration node to name then. A path that is neither the field nor one of its enclosing settings, or no path at all, is a violation",
+		"for a cross-field Validate() of a struct the faulty 'field' is the struct value itself; for Validate() of a slice type it is the slice; a top-level slice / map target has no name of its own: an error naming no field of the type at all names it (classes: other-path = the message holds the path of another field of the type as a token, no-path otherwise)",
 		"merge modes: which pre-filled elements survive is taken from the documentation of the tag options (append / prepend: all, default: the tail beyond the configured list, replace: none); pre-filled elements under replace are no fault positions, because Unpack merges the configured elements into copies of them (not judged here); the error for a configured element must name its index in the configuration list, the walk looks at its index in the result",
 		"avoided shapes (reported by C06/C07): pre-filled map[string]struct entries touched by the configuration, pointers to maps/slices/arrays, nil inline pointers, inline maps, a struct by value inside interface{} merged from the configuration",
 		"not demanded: which of several validators of one field is reported, error wording or type, the values Unpack stores (the model of Unpack is used only to decide whether a variant holds exactly one fault; disagreement between model and Unpack about the stored value only counts model_differs_from_unpack / fault_not_in_result)",
@@ -598,32 +600,66 @@ func hashKey(s string) string {
 	return strconv.FormatUint(h.Sum64(), 36)
 }
 
-// namedPath extracts the path an error message names.
-func namedPath(msg string) (string, bool) {
-	i := strings.LastIndex(msg, "accessing '")
-	if i < 0 {
-		return "", false
-	}
-	rest := msg[i+len("accessing '"):]
-	j := strings.Index(rest, "'")
-	if j < 0 {
-		return "", false
-	}
-	return rest[:j], true
+// Whether an error "names" a setting is judged independent of the wording:
+// the message must contain the dotted path as a delimited token, i.e. the
+// characters directly before and after the occurrence are not path characters
+// (letters, digits, '_', '.', '-'). Quotes, blanks, colons, brackets and the
+// ends of the text delimit; so does a full stop that ends a sentence.
+
+func pathRune(r rune) bool {
+	return r == '_' || r == '.' || r == '-' || unicode.IsLetter(r) || unicode.IsDigit(r)
 }
 
-func isSubsequence(named, full string) bool {
-	a, b := strings.Split(named, "."), strings.Split(full, ".")
-	if len(a) >= len(b) || a[len(a)-1] != b[len(b)-1] {
+func namesPath(msg, path string) bool {
+	if path == "" {
 		return false
 	}
-	i := 0
-	for _, s := range b {
-		if i < len(a) && a[i] == s {
-			i++
+	for from := 0; from <= len(msg); {
+		i := strings.Index(msg[from:], path)
+		if i < 0 {
+			return false
 		}
+		i += from
+		j := i + len(path)
+		okBefore := i == 0
+		if !okBefore {
+			r, _ := utf8.DecodeLastRuneInString(msg[:i])
+			okBefore = !pathRune(r)
+		}
+		okAfter := j == len(msg)
+		if !okAfter {
+			r, size := utf8.DecodeRuneInString(msg[j:])
+			okAfter = !pathRune(r)
+			if r == '.' { // "... at a.b." / "... at a.b. Next"
+				rest := msg[j+size:]
+				if next, _ := utf8.DecodeRuneInString(rest); rest == "" || unicode.IsSpace(next) {
+					okAfter = true
+				}
+			}
+		}
+		if okBefore && okAfter {
+			return true
+		}
+		from = i + 1
 	}
-	return i == len(a)
+	return false
+}
+
+// fieldPaths lists the configuration paths of all positions of a plan, as the
+// target's configuration calls them. Bare list indices (elements of a slice
+// that is itself the target) are left out: a number in a message is no path.
+func fieldPaths(top *pnode, norm func(string) string) []string {
+	seen := map[string]bool{}
+	var out []string
+	top.each(func(n *pnode) {
+		p := norm(n.path)
+		if n.parent == nil || p == "" || seen[p] || strings.Contains(p, "~") || strings.Trim(p, "0123456789.") == "" {
+			return
+		}
+		seen[p] = true
+		out = append(out, p)
+	})
+	return out
 }
 
 func (check) Run(seed int64, tier string, idx int, verbose bool) harness.Result {
@@ -751,7 +787,14 @@ func (check) Run(seed int64, tier string, idx int, verbose bool) harness.Result 
 		return res.Done()
 	case o.err != nil:
 		sig := "valid-input-rejected:unknown"
-		if named, ok := namedPath(o.err.Error()); ok {
+		// the longest path of the type the message contains says which field is blamed
+		named := ""
+		for _, p := range fieldPaths(base, norm) {
+			if len(p) > len(named) && namesPath(o.err.Error(), p) {
+				named = p
+			}
+		}
+		if named != "" {
 			base.each(func(n *pnode) {
 				if norm(n.path) == named && n.parent != nil && sig == "valid-input-rejected:unknown" {
 					var names []string
@@ -912,9 +955,20 @@ func (check) Run(seed int64, tier string, idx int, verbose bool) harness.Result 
 				}
 			}
 			okPath := false
+			all := fieldPaths(variant, norm)
 			for i, a := range accepted {
-				// (the target itself has no name: "accessing config")
-				if a = norm(a); a != "" && strings.Contains(msg, "'"+a+"'") || a == "" && strings.Contains(msg, "accessing config") {
+				a = norm(a)
+				named := namesPath(msg, a)
+				if a == "" {
+					// the target itself has no name: the message names no field at all
+					named = true
+					for _, p := range all {
+						if namesPath(msg, p) {
+							named = false
+						}
+					}
+				}
+				if named {
 					okPath = true
 					if i == 0 {
 						res.SetAdd("outcome", "fault:reported-naming-field")
@@ -928,15 +982,11 @@ func (check) Run(seed int64, tier string, idx int, verbose bool) harness.Result 
 				res.Ev("fault_reported", 1)
 				break
 			}
-			class := "other-path"
-			named, has := namedPath(msg)
-			if !has {
-				class = "no-path"
-			} else {
-				for _, a := range accepted {
-					if isSubsequence(named, norm(a)) {
-						class = "struct-name-missing"
-					}
+			// the path of another field of the type, or no path at all
+			class, other := "no-path", ""
+			for _, p := range all {
+				if len(p) > len(other) && namesPath(msg, p) {
+					class, other = "other-path", p
 				}
 			}
 			sig := "error-does-not-name-field:" + class
@@ -945,7 +995,7 @@ func (check) Run(seed int64, tier string, idx int, verbose bool) harness.Result 
 			} else {
 				sig += ":" + source + ":" + shape
 			}
-			res.Violate(sig, "%s: Unpack fails with %q, which does not name '%s'; %s", what, msg, n.path, describe(o))
+			res.Violate(sig, "%s: Unpack fails with %q, which does not name '%s' (names %q); %s", what, msg, norm(n.path), other, describe(o))
 			res.SetAdd("outcome", "fault:reported-without-field")
 		}
 	}
